@@ -161,3 +161,129 @@ register(Contract(
     raises=[Raises("SystemExit", code=SYSERR), Raises("OSError"), Raises("ValueError"), Raises("YAMLError")],
     modifies=["$properties_state", "g_loads.$list"],
 ))
+
+
+# ------------------------------------------------------------------------------------------------ dispatch lists (C14, C17)
+# __apply_configuration: a rule gets the section addressed by its id or ANY of its names (the first one that has keys, else
+# the section of its id), is initialised from it exactly once, and is then entered into a dispatch list iff its class
+# implements that callback.  apply_configuration: the four dispatch lists are exactly the rules of the selected list that
+# implement the callback -- each once -- so every enabled rule receives every life-cycle event it implements (C14).
+_impl = z3.Function("rule_class_implements", z3.IntSort(), z3.IntSort(), z3.BoolSort())
+
+
+@spec_fn("implements")
+def implements(ex, st, args):
+    """implements(rule_instance, 'next_token'): the rule's class defines that callback (what set_configuration_map reads from
+    self.__class__.__dict__): a function of the instance's class"""
+    from pyvc.sym import clsof
+    o, n = args
+    return vbool(_impl(clsof(V.r(o.z)), V.s(n.z)))
+
+
+RPC = "pymarkdown/plugin_manager/rule_plugin.py::RulePlugin."
+FLAGS = {"tok": ("next_token", "__enabled_plugins_for_next_token"), "line": ("next_line", "__enabled_plugins_for_next_line"),
+         "done": ("completed_file", "__enabled_plugins_for_completed_file"), "start": ("starting_new_file", "__enabled_plugins_for_starting_new_file")}
+SETMAP = Assumed(RPC + "set_configuration_map", params=["plugin_specific_facade"],
+                 modifies=["self._RulePlugin__plugin_specific_facade"] + [f"self._RulePlugin__is_{n}_implemented_in_plugin" for n, _ in FLAGS.values()]
+                 + ["self._RulePlugin__is_query_config_implemented_in_plugin"],
+                 ensures=["self._RulePlugin__plugin_specific_facade is plugin_specific_facade"]
+                 + [f"self._RulePlugin__is_{n}_implemented_in_plugin == implements(self, '{n}')" for n, _ in FLAGS.values()],
+                 effects=["g_sec.append((self, plugin_specific_facade.section_title))"],
+                 why="RulePlugin.set_configuration_map: stores the facade and sets the four is_*_implemented flags from "
+                     "`name in self.__class__.__dict__` (class introspection is outside the verified subset)")
+INITCFG = Assumed(RPC + "initialize_from_config", raises=[Raises("Exception")], modifies=["$rule_state"],
+                  effects=["g_init.append(self)"],
+                  why="a rule's initialize_from_config: reads its facade, may raise; writes only its own private state "
+                      "(C12 frame obligations for the built-in rules) -- never RulePlugin's is_*_implemented flags")
+_R["$fields"].types.update({f"RulePlugin._RulePlugin__is_{n}_implemented_in_plugin": "bool" for n, _ in FLAGS.values()})
+_R["$fields"].types.update({"FoundPlugin.plugin_instance": "RulePlugin", "FoundPlugin.plugin_id": "str"})
+from pyvc.spec import PROTECTED_FIELDS as _PF
+for _n, _ in FLAGS.values():
+    _PF[f"_RulePlugin__is_{_n}_implemented_in_plugin"] = "stored only by RulePlugin.__init__ / set_configuration_map (structural obligation protected_rule_flags)"
+
+NP = "next_plugin"
+INST = f"{NP}.plugin_instance"
+
+
+def _appended_iff(lst, cond):
+    L = f"self.{lst}"
+    return [f"len({L}) == old(len({L})) + (1 if {cond} else 0)",
+            f"forall(lambda k: {L}[k] is old({L}[k]), 0, old(len({L})))",
+            f"implies({cond}, {L}[old(len({L}))] is {NP})"]
+
+
+register(Contract(
+    key=PM + "__apply_configuration", properties=["C14", "C17"],
+    ghost={"g_sec": "List[Any]", "g_init": "List[Any]"},
+    calls={f"{INST}.set_configuration_map": SETMAP, f"{INST}.initialize_from_config": INITCFG,
+           "self.__find_configuration_for_plugin": PM + "__find_configuration_for_plugin", "inspect.stack": "inspect.stack"},
+    requires=[f"len({NIDS}) >= 1"] + [f"self.{l} is not self.{m}" for i, (_, l) in enumerate(FLAGS.values()) for j, (_, m) in enumerate(FLAGS.values()) if i < j],
+    ensures=[
+        # the rule is configured exactly once, from the section of the first of its identifiers that has any key (else its id's)
+        "len(g_sec) == old(len(g_sec)) + 1 and len(g_init) == old(len(g_init)) + 1",
+        f"g_sec[len(g_sec) - 1][0] is {INST} and g_init[len(g_init) - 1] is {INST}",
+        "forall(lambda j: g_init[j] is old(g_init[j]), 0, old(len(g_init)))", "forall(lambda j: g_sec[j] == old(g_sec[j]), 0, old(len(g_sec)))",
+        f"forall(lambda k: implies(section_nonempty({TITLE}) and forall(lambda q: implies(q < k, not section_nonempty({TITLE.replace('[k]', '[q]')})), 0, len({NIDS})), "
+        f"g_sec[len(g_sec) - 1][1] == {TITLE}), 0, len({NIDS}))",
+        f"implies(forall(lambda k: not section_nonempty({TITLE}), 0, len({NIDS})), g_sec[len(g_sec) - 1][1] == {TITLE.replace('[k]', '[0]')})",
+    ] + [e for n, l in FLAGS.values() for e in _appended_iff(l, f"implements({INST}, '{n}')")],
+    raises=[Raises("BadPluginError")],
+    xensures={"BadPluginError": [f"len(self.{l}) == old(len(self.{l}))" for _, l in FLAGS.values()]},
+    modifies=["$rule_state", "g_sec.$list", "g_init.$list", f"{INST}._RulePlugin__plugin_specific_facade",
+              f"{INST}._RulePlugin__is_query_config_implemented_in_plugin"]
+    + [f"{INST}._RulePlugin__is_{n}_implemented_in_plugin" for n, _ in FLAGS.values()] + [f"self.{l}.$list" for _, l in FLAGS.values()],
+))
+
+PL_ = "(self.__registered_plugins if use_full_list else self.__enabled_plugins)"
+_R["$fields"].types.update({"PluginManager._PluginManager__registered_plugins": "List[FoundPlugin]", "PluginManager._PluginManager__enabled_plugins": "List[FoundPlugin]"})
+
+
+def _list_is_filter(lst, name):
+    """L holds exactly the rules of the selected list that implement `name`, each once"""
+    L = f"self.{lst}"
+    return [
+        f"forall(lambda j: exists(lambda k: {L}[j] is {PL_}[k] and implements({PL_}[k].plugin_instance, '{name}'), 0, len({PL_})), 0, len({L}))",
+        f"forall(lambda k: implies(implements({PL_}[k].plugin_instance, '{name}'), exists(lambda j: {L}[j] is {PL_}[k], 0, len({L}))), 0, len({PL_}))",
+        f"forall(lambda i, j: implies(i < j, {L}[i] is not {L}[j]), 0, len({L}))",
+    ]
+
+
+def _witnessed(tag, lst, name):
+    """the same, with the witnesses spelled out by ghosts: g_src_<tag>[j] = position in P of L[j] (strictly increasing),
+    g_pos_<tag>[k] = position in L of P[k]"""
+    L, gs, gp = f"self.{lst}", f"g_src_{tag}", f"g_pos_{tag}"
+    return [
+        f"len({gs}) == len({L})",
+        f"forall(lambda j: 0 <= {gs}[j] and {gs}[j] < idx and {L}[j] is {PL_}[{gs}[j]] and implements({PL_}[{gs}[j]].plugin_instance, '{name}'), 0, len({L}))",
+        f"forall(lambda i, j: implies(i < j, {gs}[i] < {gs}[j]), 0, len({L}))",
+        f"forall(lambda k: implies(implements({PL_}[k].plugin_instance, '{name}'), 0 <= {gp}[k] and {gp}[k] < len({L}) and {L}[{gp}[k]] is {PL_}[k]), 0, idx)",
+    ]
+
+
+GH = {"g_sec": "List[Any]", "g_init": "List[Any]", "g_k": "int"}
+EFF = []
+for _t, (_n, _l) in FLAGS.items():
+    GH[f"g_src_{_t}"] = "List[int]"
+    GH[f"g_pos_{_t}"] = "Dict[int, int]"
+    EFF += [f"g_pos_{_t}[g_k] = len(g_src_{_t})", f"g_src_{_t}.append_if(implements(next_plugin.plugin_instance, '{_n}'), g_k)"]
+EFF += ["g_k = g_k + 1"]
+register(Contract(
+    key=PM + "apply_configuration", properties=["C14", "C17"],
+    ghost=GH,
+    calls={"self.__apply_configuration": (PM + "__apply_configuration", EFF)},
+    requires=[f"forall(lambda i, j: implies(i < j, {PL_}[i] is not {PL_}[j]), 0, len({PL_}))",     # a rule is registered once
+              f"forall(lambda k: len({PL_}[k].plugin_identifiers) >= 1, 0, len({PL_}))", "g_k == 0"]
+    + [f"len(g_src_{t}) == 0" for t in FLAGS],
+    ensures=[e for n, l in FLAGS.values() for e in _list_is_filter(l, n)]
+    + ["len(g_init) == old(len(g_init)) + len(" + PL_ + ")",
+       f"forall(lambda j: g_init[j] is {PL_}[j - old(len(g_init))].plugin_instance, old(len(g_init)), len(g_init))"],
+    raises=[Raises("BadPluginError")],
+    modifies=["$rule_state", "g_sec.$list", "g_init.$list", "_RulePlugin__plugin_specific_facade", "_RulePlugin__is_query_config_implemented_in_plugin"]
+    + [f"_RulePlugin__is_{n}_implemented_in_plugin" for n, _ in FLAGS.values()] + [f"self.{l}" for _, l in FLAGS.values()]
+    + ["$llen", "$litems", "$ddom", "$dval", "$dlen", "g_k"],
+    loops={0: Loop(index="idx", invariant=[e for t, (n, l) in FLAGS.items() for e in _witnessed(t, l, n)]
+                   + ["g_k == idx", "len(g_init) == old(len(g_init)) + idx", f"forall(lambda j: g_init[j] is {PL_}[j - old(len(g_init))].plugin_instance, old(len(g_init)), len(g_init))",
+                      f"proper_list is {PL_}", f"len({PL_}) == old(len({PL_}))", f"forall(lambda k: {PL_}[k] is old({PL_}[k]), 0, len({PL_}))"]
+                   + [f"self.{l} is not self.{m}" for i, (_, l) in enumerate(FLAGS.values()) for j, (_, m) in enumerate(FLAGS.values()) if i < j]
+                   + [f"self.{l} is not {PL_}" for _, l in FLAGS.values()])},
+))
